@@ -1,6 +1,7 @@
 import KoordVerif.Common.Proto
 import KoordVerif.Model.C11
 import KoordVerif.Model.C11Rounds
+import KoordVerif.Model.C11Decode
 /-
 Driver for C11.  A case is a list of declaration lines followed by one command line.
 
@@ -14,6 +15,9 @@ Driver for C11.  A case is a list of declaration lines followed by one command l
  harnesses `selmem` / `selcpu` (victim selection and order):
    pod <id> <name> <qosBE> <active> <policy 0..3> <hasSpec> <spec> <hasEff> <eff> <evictLbl> <evictPrio>
        <hasLbl> <lbl> <hasMetric> <used = metric*1000> <request> <batchReq>
+   rawpod <id> <name> <qosLabel> <kubeQoS> <phase> <hasSpec> <spec> <clsLabel> <evictLabel> <epKind> <epVal>
+       <lpKind> <lpVal> <policyTop> <hasMetric> <used> <reqNative> <reqMid> <reqBatch> <batchReq> <nElems> <elem>*
+       the same pod by label / annotation SHAPES (Model/C11Decode.lean decodes them); kinds: 0 absent 1 literal 2 malformed
    selprio <threshold> <byReq> | selbemem | selbecpu
  output: one `info <id> <evictPrio> <prio> <labelPrio> <used> <request>` per selected pod in eviction order
          (pods with equal sort keys are listed by id), then `end`
@@ -73,6 +77,24 @@ def parsePod (xs : List Int) : Option Pod :=
       { id := id.toNat, name := name.toNat, qosBE := be ≠ 0, active := act ≠ 0, policy := pol,
         specPrio := optI hs sp, effPrio := optI he ef, evictLbl := el ≠ 0, evictPrio := ep,
         labelPrio := optI hl lb, hasMetric := hm ≠ 0, used := used, request := req, batchReq := breq }
+  | _ => none
+
+def numText (kind v : Int) : Option NumText :=
+  if kind = 0 then some .absent else if kind = 1 then some (.literal v) else if kind = 2 then some .malformed else none
+
+def parseRawPod (xs : List Int) : Option Pod :=
+  match xs with
+  | id :: name :: ql :: kq :: ph :: hs :: sp :: cl :: el :: epk :: epv :: lpk :: lpv :: pt :: hm :: used ::
+      rn :: rm :: rb :: breq :: n :: elems =>
+    if elems.length ≠ n.toNat ∨ ql < 0 ∨ kq < 0 ∨ ph < 0 ∨ cl < 0 ∨ el < 0 ∨ pt < 0 ∨ elems.any (· < 0) then none else
+    match numText epk epv, numText lpk lpv with
+    | some ep, some lp =>
+      some (decodePod { id := id.toNat, name := name.toNat, qosLabel := ql.toNat, kubeQoS := kq.toNat, phase := ph.toNat,
+                        specPrio := optI hs sp, clsLabel := cl.toNat, evictLabel := el.toNat, evictPrio := ep,
+                        prioLabel := lp, policyTop := pt.toNat, policyElems := elems.map Int.toNat,
+                        hasMetric := hm ≠ 0, used := used, reqNative := rn, reqMid := rm, reqBatch := rb,
+                        batchReq := breq })
+    | _, _ => none
   | _ => none
 
 def cmpRel (a b : Key × Int) : Bool := a.1.1 < b.1.1 || (a.1.1 = b.1.1 && a.1.2 < b.1.2)
@@ -177,6 +199,10 @@ def runCase (lines : List String) : List String :=
             | _ => out ++ ["bad-op"]
           | "pod" =>
             match parsePod xs with
+            | some p => go { a with pods := p :: a.pods } out rest
+            | none => out ++ ["bad-op"]
+          | "rawpod" =>
+            match parseRawPod xs with
             | some p => go { a with pods := p :: a.pods } out rest
             | none => out ++ ["bad-op"]
           | "kill" => if xs.isEmpty then go {} (out ++ runKill a) rest else out ++ ["bad-op"]
